@@ -38,10 +38,17 @@ pub struct Profile {
     pub stream_pending: u64,
     pub stream_err: u64,
     pub stream_end: u64,
+    /// items the streams may hand over inside one poll (the routers loop while data is available)
+    pub max_items: usize,
 }
 
 impl Profile {
     pub fn random(r: &mut Rng) -> Profile {
+        if r.chance(1, 12) {
+            // a burst: publishers / requestors / the replier have hundreds of frames ready at once and
+            // every sink accepts them (well beyond any per-poll budget a router might apply)
+            return Profile { sink_pending: 0, sink_err: 0, send_err: 0, stream_item: 990, stream_pending: 10, stream_err: 0, stream_end: 0, max_items: 300 };
+        }
         let calm = r.chance(1, 3);
         Profile {
             sink_pending: *r.pick(&[0, 50, 200, 500, 800]),
@@ -51,6 +58,7 @@ impl Profile {
             stream_pending: *r.pick(&[100, 300, 600]),
             stream_err: if calm { 0 } else { *r.pick(&[0, 30, 100]) },
             stream_end: *r.pick(&[0, 20, 80, 200]),
+            max_items: MAX_ITEMS_PER_POLL,
         }
     }
 }
@@ -75,6 +83,9 @@ pub struct World {
     pub calls_in_poll: usize,
     /// data "currently available" is finite: at most this many stream items per poll
     pub items_in_poll: usize,
+    /// items handed over in the whole case (a burst profile falls back to the ordinary per-poll cap
+    /// after 450 items, so that one case does not dominate the run)
+    pub items_total: usize,
     /// replay: recorded answers per (source, operation)
     pub scripted: Option<HashMap<(Src, &'static str), VecDeque<Ans>>>,
     pub next_item: u64,
@@ -98,6 +109,7 @@ impl World {
             end_streams: false,
             calls_in_poll: 0,
             items_in_poll: 0,
+            items_total: 0,
             scripted: None,
             next_item: 0,
             aux: 0,
@@ -159,8 +171,10 @@ impl World {
         let p = self.profile;
         let total = p.stream_item + p.stream_pending + p.stream_err + p.stream_end;
         let x = self.rng.below(total.max(1));
-        if x < p.stream_item && self.items_in_poll < MAX_ITEMS_PER_POLL {
+        let cap = if self.items_total >= 450 { p.max_items.min(MAX_ITEMS_PER_POLL) } else { p.max_items };
+        if x < p.stream_item && self.items_in_poll < cap {
             self.items_in_poll += 1;
+            self.items_total += 1;
             let it = make_item(self);
             Ans::Item(it)
         } else if x < p.stream_item + p.stream_pending || x < p.stream_item {
